@@ -265,6 +265,8 @@ pub fn cases(tier: Tier) -> Vec<Case> {
     for (v6, center) in [(true, 440), (false, 1322)] {
         let mut values = window(center, w + 2);
         values.extend([0, 1, 50, 221, 222, 5000]);
+        // beyond where an 8192 byte reply buffer can hold the reply, whatever the validation says
+        values.extend(if v6 { [446usize, 447, 450, 460, 500, 876] } else { [1337usize, 1340, 1350, 1400, 2000, 2644] });
         values.sort();
         values.dedup();
         for n in values {
